@@ -75,16 +75,17 @@ const CALLBACK_NAMES: [&str; 24] = [
 /// Invoking ANY callback of the Visitor trait on `VisitorNil.with(a).with(b).with(c)` invokes
 /// exactly that callback exactly once on each of a, b and c (so every rule composed by
 /// `check_rules` sees every event of the walk).
-pub fn cons_forwards<S: Src>(s: &mut S) {
+fn cons_forwards<S: Src, const LO: usize, const HI: usize>(s: &mut S) {
     let which = s.below(24);
+    s.assume(which >= LO && which < HI);
     let fx = std::mem::ManuallyDrop::new(fixtures());
     let reg = std::mem::ManuallyDrop::new(Registry::default());
     let a = Counters::new([0; N_CALLBACKS]);
     let b = Counters::new([0; N_CALLBACKS]);
     let c = Counters::new([0; N_CALLBACKS]);
     cons_invoke(&reg, &fx, which, &a, &b, &c);
-    cover!(which == 22, "enter_input_value");
-    cover!(which == 0, "enter_document");
+    cover!(which == LO, "first callback of the range");
+    cover!(which == HI - 1, "last callback of the range");
     let (ca, cb, cc) = (a.get(), b.get(), c.get());
     let mut ok = true;
     let mut i = 0;
@@ -102,6 +103,10 @@ pub fn cons_forwards<S: Src>(s: &mut S) {
     }
     assert!(ok, "composite visitor does not forward the callback exactly once to each member");
 }
+
+pub fn cons_forwards_structure<S: Src>(s: &mut S) { cons_forwards::<S, 0, 12>(s) }
+pub fn cons_forwards_selection<S: Src>(s: &mut S) { cons_forwards::<S, 12, 22>(s) }
+pub fn cons_forwards_input_value<S: Src>(s: &mut S) { cons_forwards::<S, 22, 24>(s) }
 
 // ----------------------------------------------------------------------------------------
 // Type compatibility (spec: AreTypesCompatible(variableType, locationType)).
@@ -292,7 +297,9 @@ pub fn type_compat_8_7<S: Src>(s: &mut S) { type_compat::<S, 8, 7>(s) }
 pub fn type_compat_8_8<S: Src>(s: &mut S) { type_compat::<S, 8, 8>(s) }
 
 harnesses! {
-    #[kani::unwind(30)] #[kani::stub(std::hash::RandomState::new, crate::stubs::rs_new)] c09_cons_forwards => cons_forwards;
+    #[kani::unwind(30)] #[kani::stub(std::hash::RandomState::new, crate::stubs::rs_new)] c09_cons_forwards_structure => cons_forwards_structure;
+    #[kani::unwind(30)] #[kani::stub(std::hash::RandomState::new, crate::stubs::rs_new)] c09_cons_forwards_selection => cons_forwards_selection;
+    #[kani::unwind(30)] #[kani::stub(std::hash::RandomState::new, crate::stubs::rs_new)] c09_cons_forwards_input_value => cons_forwards_input_value;
     #[kani::unwind(5)] #[kani::stub(core::str::slice_error_fail, crate::stubs::slice_error_fail_stub)] c09_type_compat_0_0 => type_compat_0_0;
     #[kani::unwind(5)] #[kani::stub(core::str::slice_error_fail, crate::stubs::slice_error_fail_stub)] c09_type_compat_0_1 => type_compat_0_1;
     #[kani::unwind(5)] #[kani::stub(core::str::slice_error_fail, crate::stubs::slice_error_fail_stub)] c09_type_compat_0_2 => type_compat_0_2;
